@@ -56,7 +56,9 @@ def apply_unfolders(sid: str, unfolders: List[Callable]) -> List[Sid]:
         done = func(result)
         result = done
 
-    return sorted(set(result))
+    # Sids sharing a string (same search, different types) are ordered by their uri,
+    # not by set iteration order (which changes with the string hash seed).
+    return sorted(set(result), key=lambda s: (str(s), getattr(s, "uri", "")))
 
 
 @cache
